@@ -322,7 +322,7 @@ pub fn run(ctx: &Ctx) -> Report {
   let mut rng = Rng::new(ctx.seed);
   rep.rule = "command histories on the real mocset binary: make (0-3 MOCs, or 126-127 MOCs = file filled to capacity with n128 = 1) then 5-40 commands among append (10 identifiers incl. 0, 2^48-1 and 2^48+5; valid / deprecated; MOCs of depth 0..29 = 32- and 64-bit storage, empty MOCs, FITS files written with u16 / u32 / u64 indices), chgstatus (removed / deprecated / valid on 1-3 identifiers incl. unknown ones), purge (with and without -n), lock file created / removed by the harness (concurrent writer); after every command: exit status, `mocset list` (id, status, depth, number of ranges, byte size) and `mocset extract` of every listed live identifier (FITS decoded in-process) compared with the extracted model. non-trivial = every history; distinct = distinct history".to_string();
   let scratch = std::env::var("VERIF_SCRATCH").unwrap_or_else(|_| "/tmp".to_string());
-  let n = ctx.n(60, 3_000);
+  let n = ctx.n(60, 2_000);
   for i in 0..n {
     history(&mut rep, &mut orc, &mut rng, &scratch, i, false);
   }
